@@ -42,7 +42,9 @@ const ean13p5 = "1234567890123-12345"
 
 var textPool = []string{"", "a", "PSA", "1.2.3", "BL", "héllo", "日本", "a\"b\\c", "line\nbreak", "\x00", "tab\there", "SHA256", "sha-256", "M1", "https://x.example/v?a=1&b=<2>", "\u2028",
 	// text that looks like a JSON escape when written out literally
-	"C:\\u0026\\updates", "\\u003c", "x\\\\u003e", "\\n", "\\\"", "\\u00e9", "&amp;", "</script>", "\x7f", "\\"}
+	"C:\\u0026\\updates", "\\u003c", "x\\\\u003e", "\\n", "\\\"", "\\u00e9", "&amp;", "</script>", "\x7f", "\\",
+	// text that is exactly one JSON structural token (a tokenising reader must not take the string for the delimiter)
+	"[", "]", "{", "}", ",", ":", "null", "true", "\"", "[]", "{}"}
 var badUTF8 = []string{"\xff", "a\xc3", "\xed\xa0\x80", "ok\xfe"}
 
 func validComp(r *Rng) CompDesc {
